@@ -81,32 +81,32 @@ type GenAcc struct {
 
 // Config is a genesis + node configuration. JSON-serialisable so replays are self-contained.
 type Config struct {
-	Vals       []GenVal         `json:"vals"`
-	Accs       []GenAcc         `json:"accs"`
-	DAOTokens  int64            `json:"dao_tokens"`
-	Owner      int              `json:"owner"`     // key index owning every ACL entry
-	DAOOwner   int              `json:"dao_owner"` // key index of the DAO owner
-	Pos        *PosParams       `json:"pos,omitempty"`
-	FeeMult    *FeeMult         `json:"fee_mult,omitempty"`
-	Pruning    [2]int64         `json:"pruning"` // keepRecent, keepEvery; {0,1} = nothing
-	MountPerm  int              `json:"mount_perm,omitempty"`
-	MaxBlockGas int64           `json:"max_block_gas,omitempty"`
+	Vals        []GenVal   `json:"vals"`
+	Accs        []GenAcc   `json:"accs"`
+	DAOTokens   int64      `json:"dao_tokens"`
+	Owner       int        `json:"owner"`     // key index owning every ACL entry
+	DAOOwner    int        `json:"dao_owner"` // key index of the DAO owner
+	Pos         *PosParams `json:"pos,omitempty"`
+	FeeMult     *FeeMult   `json:"fee_mult,omitempty"`
+	Pruning     [2]int64   `json:"pruning"` // keepRecent, keepEvery; {0,1} = nothing
+	MountPerm   int        `json:"mount_perm,omitempty"`
+	MaxBlockGas int64      `json:"max_block_gas,omitempty"`
 }
 
 // PosParams are custom pos parameters (nil => module route with the forced defaults).
 type PosParams struct {
-	UnstakingTime     time.Duration `json:"unstaking_time"`
-	MaxValidators     uint64        `json:"max_validators"`
-	StakeMinimum      int64         `json:"stake_minimum"`
-	MaxEvidenceAge    time.Duration `json:"max_evidence_age"`
-	Window            int64         `json:"window"`
-	MinSignedNum      int64         `json:"min_signed_num"` // MinSignedPerWindow = num/den
-	MinSignedDen      int64         `json:"min_signed_den"`
-	JailDuration      time.Duration `json:"jail_duration"`
-	SlashDoubleNum    int64         `json:"slash_double_num"` // fraction = num / 10^18
-	SlashDowntimeNum  int64         `json:"slash_downtime_num"`
-	SlashDoubleStr    string        `json:"slash_double_str,omitempty"` // overrides Num when set (decimal string)
-	SlashDowntimeStr  string        `json:"slash_downtime_str,omitempty"`
+	UnstakingTime    time.Duration `json:"unstaking_time"`
+	MaxValidators    uint64        `json:"max_validators"`
+	StakeMinimum     int64         `json:"stake_minimum"`
+	MaxEvidenceAge   time.Duration `json:"max_evidence_age"`
+	Window           int64         `json:"window"`
+	MinSignedNum     int64         `json:"min_signed_num"` // MinSignedPerWindow = num/den
+	MinSignedDen     int64         `json:"min_signed_den"`
+	JailDuration     time.Duration `json:"jail_duration"`
+	SlashDoubleNum   int64         `json:"slash_double_num"` // fraction = num / 10^18
+	SlashDowntimeNum int64         `json:"slash_downtime_num"`
+	SlashDoubleStr   string        `json:"slash_double_str,omitempty"` // overrides Num when set (decimal string)
+	SlashDowntimeStr string        `json:"slash_downtime_str,omitempty"`
 }
 
 type FeeMult struct {
@@ -121,7 +121,7 @@ func DefaultPos() PosParams {
 		UnstakingTime: posTypes.DefaultUnstakingTime, MaxValidators: posTypes.DefaultMaxValidators,
 		StakeMinimum: posTypes.DefaultMinStake, MaxEvidenceAge: posTypes.DefaultMaxEvidenceAge,
 		Window: posTypes.DefaultSignedBlocksWindow, MinSignedNum: 1, MinSignedDen: 2,
-		JailDuration: posTypes.DefaultDowntimeJailDuration,
+		JailDuration:   posTypes.DefaultDowntimeJailDuration,
 		SlashDoubleStr: "0.05", SlashDowntimeStr: "0.01",
 	}
 }
@@ -165,10 +165,10 @@ type App struct {
 }
 
 var MaccPerms = map[string][]string{
-	auth.FeeCollectorName:    nil,
-	posTypes.StakedPoolName:  {auth.Burner, auth.Minter, auth.Staking},
-	posTypes.ModuleName:      nil,
-	govTypes.DAOAccountName:  {auth.Burner, auth.Minter, auth.Staking},
+	auth.FeeCollectorName:   nil,
+	posTypes.StakedPoolName: {auth.Burner, auth.Minter, auth.Staking},
+	posTypes.ModuleName:     nil,
+	govTypes.DAOAccountName: {auth.Burner, auth.Minter, auth.Staking},
 }
 
 // AllParamKeys lists the 17 registered parameters.
